@@ -137,6 +137,7 @@ def engine():
 VERIFY = [ExportTarget(), ExportPort()]
 
 
+@guarded("oi")
 def roundtrip_obligations():
     """import_connection_target(export_connection_target(sig), module) is sig - one symbolic run through both bodies"""
     eng = mk_engine(contracts=[ExportSliceCallee(), ExportConcatCallee(), c_import.ImportConcat()],
@@ -192,6 +193,7 @@ class ExportTargetCallee(Contract):
         return st.alloc(vckt.ConnectionTarget)
 
 
+@guarded("koi", "hdl21.proto.exporting:export_concat")
 def export_concat_obligations(max_arity=4):
     key = "hdl21.proto.exporting:export_concat"
     ext = loader.extract(key)
@@ -231,6 +233,7 @@ def export_concat_obligations(max_arity=4):
     return key, obs, info
 
 
+@guarded("koi", "hdl21.proto.exporting:ProtoExporter.export_instance")
 def export_instance_conn_obligations():
     """ProtoExporter.export_instance: the connection loop body located in the current source, executed for one arbitrary
     (port name, connectable) entry of inst.conns: one Connection record carrying that port name and the export of that
